@@ -352,16 +352,22 @@ CLAIMS["C03"].update(
               "+ latency oracle")
 CLAIMS["C07"].update(
     category="proof",
-    text="7 Lean theorems over the kernel model: started() on a pending/resolved/failed/cancelled start future "
-         "(exact state and result: second call is RuntimeError unless the caller was cancelled), a child ending "
-         "before started() resolves the future with its exception (RuntimeError if it returned) and cancels no "
-         "scope and records nothing in the group (partial: side condition on the completion future), an error "
-         "raised after the handshake or after the caller was cancelled is routed to the group (F2) for every "
-         "reachable state, start() returns a value only if the future carries a result (partial). Not yet "
-         "proved: that only the child's started() can resolve the start future, and that start() re-raises only "
-         "after the child has finished; both are decided on every run by trace validation and the handshake "
-         "oracle.",
-    technique="Lean 4 proofs over the kernel LTS (partial) + trace validation + handshake oracle")
+    text="17 Lean theorems over the kernel model. For every reachable state: every future id in use has exactly "
+         "one role (start future of one child, completion future of one group, handle waiter, sleep, user "
+         "future) - the start future is private to the handshake (C07_future_roles, _start_future_fresh); a "
+         "start future changes state only from pending and only by (a) started() executed by that very child, "
+         "(b) that child's done-callback (failure), (c) cancellation of the caller blocked in start() "
+         "(C07_start_future_private); start() resumes with a value only if the future carries a result, and a "
+         "result on any run implies an earlier started() event executed by the child itself (C07_value, "
+         "C07_result_by_started: decomposition of the event list); a child that ends before started() resolves "
+         "the future with its exception (RuntimeError if it returned), cancels no scope and records nothing in "
+         "the group (C07_early_exit, full); after the caller was cancelled, start() proceeds from the shielded "
+         "join only when the child has finished (C07_caller_cancelled_join), and an error raised by the child "
+         "after the handshake or after the caller was cancelled is routed to the group (F2); started() on a "
+         "resolved/failed future is RuntimeError with the state unchanged, on a cancelled one no error. Minor "
+         "gap: C07_value is stated for the wake-up handle (the step handle case needs 'startWait is never "
+         "yielded'). Trace validation and the handshake oracle tie the model to the code.",
+    technique="Lean 4 invariant proofs over the kernel LTS + trace validation + handshake oracle")
 CLAIMS["C08"].update(
     category="proof",
     text="75 Lean theorems over the primitive models (Lock, Semaphore, CapacityLimiter, Event, Condition, "
